@@ -25,7 +25,7 @@ META = dict(
     bounds=dict(quick=dict(sequence="K<=3 events from {8 methods, record change, nested block} with symbolic block entry/exit positions, with and without an exception inside the block", as_dict="symbolic subset of 5 attribute names, invalid name, non-collection"),
                 thorough=dict(sequence="K<=4", as_dict="as quick")),
     outside=["longer sequences", "more than 2 threads / 2 pre-emptions; races inside one source line; the kernel record changing while two threads are inside calls"],
-    labels=["value-from-first-read-version", "each-source-read-at-most-once-per-block", "fresh-read-outside-block", "cache-gone-after-exit", "as_dict-keys", "as_dict-invalid-name-ValueError", "as_dict-non-collection-TypeError", "as_dict-ad_value", "as_dict-NoSuchProcess-propagates", "threads-no-spurious-error"],
+    labels=["value-from-first-read-version", "each-source-read-at-most-once-per-block", "fresh-read-outside-block", "cache-gone-after-exit", "as_dict-keys", "as_dict-invalid-name-ValueError", "as_dict-non-collection-TypeError", "as_dict-ad_value", "as_dict-NoSuchProcess-propagates", "results-belong-to-the-caller", "threads-no-spurious-error"],
 )
 
 
@@ -126,7 +126,13 @@ def sequence(ctx, K, raise_inside):
                 return
             if e == "nested":
                 if inside:
-                    with p.oneshot():
+                    # (the nested block may itself be left by an exception that the outer block handles)
+                    nested_boom = ctx.flag(f"nested_block_left_by_exception{i}")
+                    try:
+                        with p.oneshot():
+                            if nested_boom:
+                                raise Boom()
+                    except Boom:
                         pass
                     ctx.prove(hasattr(p, "_cache") or hasattr(p._proc, "_cache"), "nested-exit-keeps-outer-block")
                 return
@@ -271,6 +277,47 @@ def as_dict(ctx, kind):
         for a in want:
             V.check_value(ctx, a, d[a], 0, "value-from-first-read-version")
         ctx.prove(not hasattr(p, "_cache") and not hasattr(p._proc, "_cache"), "cache-gone-after-exit")
+
+
+MUTABLE = ["cmdline", "environ", "cpu_affinity", "threads", "open_files", "memory_maps", "net_connections", "gids", "as_dict:cmdline", "as_dict:environ"]
+
+
+@harness("C16.results_belong_to_the_caller")
+def results_belong_to_the_caller(ctx):
+    """inside a block a caller may do what it likes with a result (sort it, pop from it, clear it): the next call of any method --
+    the same one, name(), exe(), as_dict() -- answers as if nothing had been done to it"""
+    import copy
+
+    k = simk.Kernel(ctx)
+    simk.system_files(k)
+    simk.full_process(k, P, comm="averyveryverylo")           # a 15-byte name: name() completes it from cmdline()[0]
+    k.files[f"/proc/{P}/cmdline"] = "/opt/averyveryverylongname\x00-x\x00"
+    what = ctx.choice("result_of", MUTABLE)
+    inside = ctx.flag("inside_oneshot_block")
+    import contextlib
+
+    def ask():
+        if what.startswith("as_dict:"):
+            return p.as_dict(attrs=[what[8:]])[what[8:]]
+        return getattr(p, what)()
+
+    with k.installed(), contextlib.ExitStack() as stack:
+        p = psutil.Process(P)
+        if inside:
+            stack.enter_context(p.oneshot())
+        first = ctx.guard("results-belong-to-the-caller", ask)
+        keep = copy.deepcopy(first)
+        if isinstance(first, list):
+            del first[:]
+            first.append("junk")
+        elif isinstance(first, dict):
+            first.clear()
+            first["junk"] = 1
+        again = ctx.guard("results-belong-to-the-caller", ask)
+        plain = ctx.guard("results-belong-to-the-caller", getattr(p, what.split(":")[-1]))
+        nm = p.name()
+    ctx.prove(again == keep and plain == keep, "results-belong-to-the-caller", detail=f"{what} (inside a block: {inside}): first {keep!r}, after the caller emptied it: {again!r} / {plain!r}")
+    ctx.prove(nm == "averyveryverylongname", "results-belong-to-the-caller", detail=f"name() afterwards: {nm!r}")
 
 
 @harness("C16.threads", quick=[dict(P=1, b="cpu_times"), dict(P=1, b="num_threads"), dict(P=2, b="cpu_times", small=True), dict(P=2, b="num_threads", small=True, b_block=True)],
